@@ -246,6 +246,21 @@ def run(prog: Program, chk: Check):
                     return True
             return False
 
+        # the manager's forward path is re-entrant (failure handling and logging publish nested messages): header and
+        # payload objects handed to it must be fresh per call, never shared attributes
+        from ..dataflow import definitions as _defs
+
+        for role, ex in (("header", h), ("payload", p)):
+            nm_ = path_of(ex)
+            if nm_ is None or isinstance(ex, ast.Constant):
+                continue
+            if "." in nm_:
+                L.bad(fkey(f, f"fresh-{role}:{norm(call)}"), where(f, call), f"{f.qual} passes the shared object `{nm_}` as {role}: a nested forward (failure notice, log record, CLIENT_CLOSED) overwrites it mid fan-out")
+                continue
+            ds = [d for d in _defs(f.node, nm_) if d[0] != "param"]
+            shared = [norm(r) for k_, r in ds if isinstance(r, (ast.Attribute, ast.Name)) and (path_of(r) or "").startswith("self.") and not (path_of(r) or "").startswith("self.header")]
+            if shared and not any(k_ == "param" for k_, _ in _defs(f.node, nm_)):
+                L.bad(fkey(f, f"fresh-{role}:{norm(call)}"), where(f, call), f"{f.qual} uses the shared object {shared[0]} as {role} of an outgoing frame: a nested forward (failure notice, log record, CLIENT_CLOSED) overwrites it mid fan-out")
         stores = [n for n in g.nodes if is_len_store(n)]
         if stores:
             missing = flow.must_precede(g, is_len_store, call_nodes)
@@ -300,6 +315,26 @@ def run(prog: Program, chk: Check):
     st = [n for n in walk_local(sa.node) if isinstance(n, ast.Assign) for t in n.targets if isinstance(t, ast.Attribute) and t.attr == "num_data_bytes"]
     L.decide(len(st) == 1 and isinstance(st[0].value, ast.Constant) and st[0].value.value == 0, fkey(sa, "num_data_bytes=0"), where(sa),
              "header-only frame declares 0 payload bytes", "Module.send_ack does not declare num_data_bytes = 0")
+
+    # ---- C05-P a failed write never leaves the connection open -------------------------------------------------------
+    P = chk.rule("C05-P", "every exception handler around a send to a module removes that module (whatever the exception class)", 4,
+                 "sendall may have written part of a frame and the sequence counter is already incremented: keeping the connection open leaves a torn frame / a gap in its stream")
+    from .c14 import conn_error_handlers
+
+    for f in mm_cls.methods.values():
+        for t, tsends in conn_error_handlers(prog, ty, f):
+            rcp = path_of(recv_of(tsends[0]))
+            for h in t.handlers:
+                calls = [c for st_ in h.body for c in calls_in(st_)]
+                removes = [c for c in calls if is_method_call(c, ("remove_module", "disconnect_module")) and c.args and path_of(c.args[0]) == rcp]
+                reraises = any(isinstance(x, ast.Raise) and x.exc is None for st_ in h.body for x in walk_local(st_))
+                P.decide(bool(removes) or reraises, fkey(f, f"handler({norm(h.type) if h.type is not None else 'bare'}):{norm(tsends[0])}"), where(f, h),
+                         f"handler removes `{rcp}`", f"{f.qual}: handler `except {norm(h.type) if h.type is not None else ''}` around `{norm(tsends[0])}` keeps the connection open after a possibly partial frame")
+    # no timeout / non-blocking mode on client connections inside the writers (sendall must complete or fail hard)
+    for f in prog.module(MGR).functions.values():
+        for c in calls_in(f.node):
+            if is_method_call(c, ("settimeout", "setblocking")) and is_conn_type(ty.expr(f, recv_of(c))) and path_of(recv_of(c)) != "self.listen_socket":
+                P.bad(fkey(f, c), where(f, c), f"{f.qual}: `{norm(c)}` makes writes on a client connection interruptible mid-frame")
 
     # ---- C05-T single thread of control --------------------------------------------------------
     T = chk.rule("C05-T", "manager.py creates no thread / task / executor / queue and processes messages synchronously", 2,
